@@ -340,11 +340,11 @@ func (s *Server) handle(client string, cmd bson.D) bson.D {
 	op.Seq = s.seq
 	var reply bson.D
 	if op.Fault == "fail" {
-		reply = errReply(11600, "injected failure (not applied)")
+		reply = errReply(96, "injected failure (not applied)")
 	} else {
 		reply = s.apply(op, cmd)
 		if op.Fault == "lost" {
-			reply = errReply(11601, "injected failure (applied, reply lost)")
+			reply = errReply(96, "injected failure (applied, reply lost)")
 		}
 	}
 	if s.PostApply != nil {
